@@ -307,7 +307,14 @@ pub fn replay(case: &Value) -> Option<String> {
         None => Labels::default(),
     };
     let ctx = NetCtx::new(b, labels, "replay");
-    let (_, bad) = check_in(&f, &ctx.user, &ctx.b.graph, &ctx.sets, 3, false);
+    let (_, mut bad) = check_in(&f, &ctx.user, &ctx.b.graph, &ctx.sets, 3, false);
+    if case.get("labels").is_none() && f.size() <= 3 {
+        let mut odd_names = ctx.user.clone();
+        for (i, w) in ["1", "true", "0"].iter().enumerate() {
+            odd_names.wilds[WILD_OFFSET as usize + i] = w.to_string();
+        }
+        bad.extend(check(&f, &odd_names, &ctx.b.graph, 2, false).1);
+    }
     if bad.is_empty() {
         None
     } else {
@@ -332,10 +339,20 @@ pub fn run(tier: &str) -> Result<Report, String> {
         if b.n <= 2 || tier != "quick" {
             fs.extend(crate::formulas::duplicate_templates(ctx.nprops(), if tier == "quick" { 4 } else { 5 }, tier == "quick", false));
         }
+        let mut odd_names = ctx.user.clone();
+        for (i, w) in ["1", "true", "0"].iter().enumerate() {
+            odd_names.wilds[WILD_OFFSET as usize + i] = w.to_string();
+        }
         let res: Vec<(u64, Option<Violation>)> = fs
             .par_iter()
             .map(|f| {
-                let (n, bad) = check(f, &ctx.user, &ctx.b.graph, 3, false);
+                let (mut n, mut bad) = check(f, &ctx.user, &ctx.b.graph, 3, false);
+                if f.size() <= 3 {
+                    // the same substitutions under labels named like constants (%1%, %true%, %0%)
+                    let (n2, bad2) = check(f, &odd_names, &ctx.b.graph, 2, false);
+                    n += n2;
+                    bad.extend(bad2);
+                }
                 let v = if bad.is_empty() {
                     None
                 } else {
@@ -434,6 +451,6 @@ pub fn run(tier: &str) -> Result<Report, String> {
     rep.evaluations = total;
     rep.distinct_nontrivial = total.saturating_sub(3 * rep.extra.get("formulae_x_networks").and_then(|v| v.as_u64()).unwrap_or(0));
     rep.sample(json!({"formula": "((!{x}: (AX {x})) & (EF a))", "case": "(%p% & (EF %q%)) with p := result of (!{x}: (AX {x})), q := result of a", "oracle": "raw result must equal (BDD equality) model_check_formula_dirty of the original"}));
-    rep.rule = format!("for every closed plain formula with <= {m} nodes (quick: 4 on con2 and asy2) and every plain template formula (benchmark formulae, quantifier nests, sub-formulae duplicated up to renaming at equal / different depths) on the core networks {which:?}: every non-empty antichain of at most 3 closed proper sub-formula occurrences (atoms included) is replaced by wild-cards bound to model_check_formula_dirty of the sub-formula (once with a fresh wild-card per occurrence, once with one shared wild-card for equal sub-formulae), and the extended evaluation must equal the plain result as a set; plus the identity cases (plain formula through the extended entry points with an empty context); the same for surrounding formulae that themselves contain wild-cards and restricted domains (extended templates and all extended formulae with <= 3, thorough 4, nodes; label families mixed and colour-disjoint; antichains of <= 2). On the bundled models {:?}: benchmark-style formulae with all antichains of <= 2 non-atomic closed sub-formulae. distinct_nontrivial = number of substitution cases, i.e. evaluations minus the three identity calls per formula (each case a distinct (formula, replaced occurrences, label sharing) triple)", bigmodels::family(tier));
+    rep.rule = format!("for every closed plain formula with <= {m} nodes (quick: 4 on con2 and asy2) and every plain template formula (benchmark formulae, quantifier nests, sub-formulae duplicated up to renaming at equal / different depths) on the core networks {which:?}: every non-empty antichain of at most 3 closed proper sub-formula occurrences (atoms included) is replaced by wild-cards bound to model_check_formula_dirty of the sub-formula (once with a fresh wild-card per occurrence, once with one shared wild-card for equal sub-formulae), and the extended evaluation must equal the plain result as a set (formulae with <= 3 nodes also with the fresh labels named 1, true, 0); plus the identity cases (plain formula through the extended entry points with an empty context); the same for surrounding formulae that themselves contain wild-cards and restricted domains (extended templates and all extended formulae with <= 3, thorough 4, nodes; label families mixed and colour-disjoint; antichains of <= 2). On the bundled models {:?}: benchmark-style formulae with all antichains of <= 2 non-atomic closed sub-formulae. distinct_nontrivial = number of substitution cases, i.e. evaluations minus the three identity calls per formula (each case a distinct (formula, replaced occurrences, label sharing) triple)", bigmodels::family(tier));
     Ok(rep)
 }
